@@ -148,6 +148,7 @@ func main() {
 	if *inits != "" {
 		P.initPkgs = append(P.initPkgs, strings.Split(*inits, ",")...)
 	}
+	P.onPublish = P.findFunc("github.com/cloudwego/frugal/internal/reflect.VerifOnPublish")
 	P.initSet = map[string]bool{}
 	for _, p := range P.initPkgs {
 		P.initSet[p] = true
